@@ -147,9 +147,18 @@ def classify_c12(hist, at, what, slack):
             return "NoRecheck"            # passivation went on after a concurrent Shutdown had completed
         return None
     if what == WHAT_COUNT:
-        if any(r["ev"] == "register" for r in hist[:at]):
-            return "StaleCountTrigger"    # re-registered while a count trigger was in flight
-        return None
+        # the recorded finding is the IN-PLACE re-registration (Register updates the existing entry: same object, trigger still
+        # valid for the identity check). A registration that follows an Unregister (Shutdown / Restart) creates a NEW entry; a
+        # trigger of the old one must be dropped by the identity check - if it is served, that is not this finding.
+        decs = [i for i, r in enumerate(hist) if r["ev"] == "decision"]
+        upto = decs[-1] if decs else at
+        regs = [i for i, r in enumerate(hist[:upto]) if r["ev"] == "register"]
+        if not regs:
+            return None
+        prev = regs[-2] if len(regs) > 1 else 0
+        if any(r["ev"] == "unregister" for r in hist[prev:regs[-1]]):
+            return None
+        return "StaleCountTrigger"
     return None
 
 
@@ -253,6 +262,14 @@ def run_c12(ctx):
         return json.loads(p.stdout.strip().splitlines()[-1]), t
 
     sfuts = [pool.submit(stress, m) for m in (0, 1, 2)]
+
+    # ---- fixed witness walks (schedules outside the bounded model: Restart while a count trigger is in flight)
+    def witness():
+        t = ctx.tmp("witness.ndjson")
+        p = ctx.run([exe, "witness", t, str(SLACK_MS)], timeout=600)
+        return json.loads(p.stdout.strip().splitlines()[-1]), t
+
+    sfuts.append(pool.submit(witness))
 
     for f in holds:
         f.result()
